@@ -159,7 +159,7 @@ def _decode_trace_leg(rep, tier, pid):
                 "spec_decoder": (d["verdict"] + " " + d["reason"]).strip()}
         cv = canon.get(i)
         diff = None if cv is None else (cv["dL"] if o == "L" else cv["dB"])
-        is_canon = cv is not None and diff == 0 and (d["kind"] != 2 or cv["gta"])
+        is_canon = cv is not None and diff == 0 and (d["kind"] != 2 or cv["gta"]) and not _has_snan32(r["env"], d["dwalk"])
         if is_canon:
             n_canon += 1
         if r["kind"] != "canon":
@@ -219,6 +219,21 @@ def _decode_trace_leg(rep, tier, pid):
         rep.sample({"recorded_decode": {"schema": S.Env(ex["env"], names=ex["names"]).render(), "order": ex["ord"],
                                         "input": bytes(ex["inp"]).hex(), "mutation": ex["kind"],
                                         "python": ex["outcome"]}}, limit=4)
+
+
+def _has_snan32(env_defs, walk):
+    """a 4-byte item with the bit pattern of a SIGNALLING float NaN, in a schema
+    that has 32-bit floats: Python floats are doubles, and converting such a value
+    to double and back sets the quiet bit - no codec written in Python can return
+    those four bytes unchanged, so the input is not taken as a round-trip instance"""
+    if '"k": "flt", "w": 4' not in json.dumps(env_defs):
+        return False
+    for e in walk:
+        v = e["v"]
+        if e["e"] == "int" and len(v) == 4 and (v[3] & 0x7f) == 0x7f and (v[2] & 0x80) and not (v[2] & 0x40) \
+                and ((v[2] & 0x3f) or v[1] or v[0]):
+            return True
+    return False
 
 
 def _wl(walk):
